@@ -15,6 +15,7 @@ import (
 	ledger "github.com/formancehq/ledger/internal"
 	"github.com/formancehq/ledger/internal/storage/common"
 	"github.com/formancehq/ledger/pkg/features"
+	"github.com/formancehq/ledger/verifharness/pgsim"
 	"github.com/formancehq/ledger/verifharness/refmodel"
 )
 
@@ -275,6 +276,63 @@ func (w *World) checkAccounts(l *LState, pit *time.Time, pageSize uint64) {
 	w.checkErr(err)
 	if err != nil || n != len(want) {
 		w.V("C20", "CountAccounts(pit=%v) = %d (err %v), listing has %d", pit, n, err, len(want))
+	}
+}
+
+// CheckMovesTable audits the committed rows of the moves table of a ledger with MOVES_HISTORY=ON: in insertion (seq)
+// order, every move's post_commit_volumes must be the running fold of the amounts moved so far for its (account, asset) -
+// the state right after that move (C03) - and the last one must equal the account's current volumes (C02); every
+// point-in-time read is computed from these rows (C05).
+func (w *World) CheckMovesTable(l *LState) {
+	if !l.Has(features.FeatureMovesHistory, "ON") {
+		return
+	}
+	type key struct{ acc, asset string }
+	var rows []map[string]pgsim.Value
+	for _, r := range w.Env.Sim.Rows(l.Bucket, "moves") {
+		if r["ledger"].S == l.Name {
+			rows = append(rows, r)
+		}
+	}
+	sort.Slice(rows, func(i, j int) bool { return rows[i]["seq"].N.Cmp(rows[j]["seq"].N) < 0 })
+	in, out := map[key]*big.Int{}, map[key]*big.Int{}
+	for _, r := range rows {
+		k := key{r["accounts_address"].S, r["asset"].S}
+		if in[k] == nil {
+			in[k], out[k] = new(big.Int), new(big.Int)
+		}
+		amt := r["amount"].N
+		if amt == nil {
+			w.harness("moves row without amount: %v", r)
+		}
+		if r["is_source"].B {
+			out[k].Add(out[k], amt)
+		} else {
+			in[k].Add(in[k], amt)
+		}
+		pcv, _ := r["post_commit_volumes"].J.(map[string]any)
+		var gotIn, gotOut string
+		if pcv != nil {
+			gotIn, gotOut = fmt.Sprint(pcv["input"]), fmt.Sprint(pcv["output"])
+		} else if c := r["post_commit_volumes"]; len(c.A) == 2 && c.A[0].N != nil && c.A[1].N != nil {
+			gotIn, gotOut = c.A[0].N.String(), c.A[1].N.String()
+		} else {
+			w.harness("moves row with an unreadable post_commit_volumes: %#v", c)
+		}
+		if gotIn != in[k].String() || gotOut != out[k].String() {
+			w.V("C03|C02|C05", "moves row seq=%s (transaction %s, %s %s, source=%v, amount %s) carries post_commit_volumes (%s,%s); the fold of the moves up to it is (%s,%s)\nhistory:\n  %s",
+				r["seq"].N, r["transactions_id"].N, k.acc, k.asset, r["is_source"].B, amt, gotIn, gotOut, in[k], out[k], l.History())
+		}
+	}
+	now := l.M.VolumesNow()
+	for k := range in {
+		want := now.Get(k.acc, k.asset)
+		if want.In.Cmp(in[k]) != 0 || want.Out.Cmp(out[k]) != 0 {
+			w.V("C02|C03", "the moves of %s %s add up to (%s,%s), the fold of the committed postings is (%s,%s)\nhistory:\n  %s", k.acc, k.asset, in[k], out[k], want.In, want.Out, l.History())
+		}
+	}
+	if w.St != nil {
+		w.St.Add("moves_rows_audited", len(rows))
 	}
 }
 
